@@ -34,6 +34,16 @@ def make_obs(ctx):
               obs.append(Ob('getters:%s:%d-%d' % (s, lo, hi), H, 'h_getters',
                           dict(d, SRC=REPS[s]), units=UNITS, bounds=b,
                           group='getters:%s' % s, kf=['daisy_tail'] if s in DAYNUM and hi >= 4094 else []))
+    # (4) text of each numeric specifier denotes the calendar's value (ymd-held values here;
+    # C02 shows every other representation prints the same text)
+    from .C02 import VALSPEC, q
+    sw = core.year_windows_full(100) if ctx.tier == 'thorough' else [(1896, 1904), (1996, 2004), (4088, 4095)]
+    for (lo, hi) in sw:
+        for sp, sel in VALSPEC:
+            obs.append(Ob('strf-value:%s:ymd:%d-%d' % (sp, lo, hi), 'C02_strf.c', 'h_strf_value',
+                          {'YLO': lo, 'YHI': hi, 'FMT': q(sp), 'VAL': sel, 'REP': REPS['ymd']},
+                          units=UNITS, unwind=26, group='strf-value:%s' % sp,
+                          bounds={'days': 'every day of %d..%d' % (lo, hi), 'format': sp}))
     return obs
 
 
